@@ -12,7 +12,7 @@ open Morlock.Props.C09
 variable {P : Type}
 
 /-- What `alphabeta` does at depth 0 after `abEnter` let it pass. -/
-def leafBody (g : Game P) (le : LeafEval) (p : P) (a b : Score) (st : SState) : Score × List Move × SState :=
+def leafBody (g : Game P) (le : LeafEval P) (p : P) (a b : Score) (st : SState) : Score × List Move × SState :=
   let (score, st) := quietSearch g le p a b st
   let (c, st) := poll st
   if c then (invalidScore, [], st) else
@@ -21,10 +21,10 @@ def leafBody (g : Game P) (le : LeafEval) (p : P) (a b : Score) (st : SState) : 
   (score, [], st)
 
 /-- What `alphabeta` does at depth `d + 1` after `abEnter` let it pass with table move `best`. -/
-def abBody (g : Game P) (ex : Explore) (le : LeafEval) (rootPly : Int) (d : Nat) (p : P) (a b : Score)
+def abBody (g : Game P) (ex : P → Explore) (le : LeafEval P) (rootPly : Int) (d : Nat) (p : P) (a b : Score)
     (best : Move) (st : SState) : Score × List Move × SState :=
   let st := { st with nodes := st.nodes + 1 }
-  let order := heapOrder (g.moves p) (firstPrio best ex.prio)
+  let order := heapOrder (g.moves p) (firstPrio best (ex p).prio)
   let (alpha, pv, hasLegal, wasCut, st) := abLoop g ex (alphabeta g ex le rootPly d) p b order a [] false st
   let (c, st) := poll st
   if c then (invalidScore, [], st) else
@@ -33,7 +33,7 @@ def abBody (g : Game P) (ex : Explore) (le : LeafEval) (rootPly : Int) (d : Nat)
     then { st with tt := (st.tt.write (g.hash p) 0 (g.ply p) ((d + 1 : Nat) : Int) alpha (firstOrNone pv)).1 } else st
   (alpha, pv, st)
 
-theorem alphabeta_zero_eq (g : Game P) (ex : Explore) (le : LeafEval) (rootPly : Int) (p : P) (a b : Score)
+theorem alphabeta_zero_eq (g : Game P) (ex : P → Explore) (le : LeafEval P) (rootPly : Int) (p : P) (a b : Score)
     (st : SState) :
     alphabeta g ex le rootPly 0 p a b st =
       match abEnter g rootPly 0 p st with
@@ -42,7 +42,7 @@ theorem alphabeta_zero_eq (g : Game P) (ex : Explore) (le : LeafEval) (rootPly :
   simp only [alphabeta, leafBody]
   cases abEnter g rootPly 0 p st <;> rfl
 
-theorem alphabeta_succ_eq (g : Game P) (ex : Explore) (le : LeafEval) (rootPly : Int) (d : Nat) (p : P)
+theorem alphabeta_succ_eq (g : Game P) (ex : P → Explore) (le : LeafEval P) (rootPly : Int) (d : Nat) (p : P)
     (a b : Score) (st : SState) :
     alphabeta g ex le rootPly (d + 1) p a b st =
       match abEnter g rootPly (d + 1) p st with
@@ -54,7 +54,7 @@ theorem alphabeta_succ_eq (g : Game P) (ex : Explore) (le : LeafEval) (rootPly :
 /-- `abEnter` under a sound table: either it answers at once (cancelled, draw, exact table hit below the
     root) — then the table is untouched and a live answer is the exact value with an empty PV — or it lets
     the search proceed from the ticked state, which is live, at a position that is not adjudicated drawn. -/
-theorem abEnter_tt {g : Game P} (ex : Explore) (le : LeafEval) {rootPly : Int} {R U : Nat → P → Prop}
+theorem abEnter_tt {g : Game P} (ex : P → Explore) (le : LeafEval P) {rootPly : Int} {R U : Nat → P → Prop}
     (hcl : Closed g ex R) (hRU : ∀ n q, R n q → U n q) (hrf : RootFreeOn g R rootPly)
     (depth : Nat) (p : P) (hp : R depth p) (st : SState) (hs : SoundOn g ex le U st.tt) :
     (∀ r, abEnter g rootPly depth p st = .inl r →
@@ -113,7 +113,7 @@ theorem abEnter_tt {g : Game P} (ex : Explore) (le : LeafEval) {rootPly : Int} {
             exact ⟨rfl, hlive, trivial⟩
 
 /-- The leaf evaluation: the table is untouched; a live result is the clipped leaf value. -/
-theorem quietSearch_tt {g : Game P} (hev : EvalOk g) (le : LeafEval) (K : Nat) (hK : leafGrade le ≤ K)
+theorem quietSearch_tt {g : Game P} (hev : EvalOk g) (le : LeafEval P) (K : Nat) (hK : leafGrade le ≤ K)
     (hK127 : K ≤ 127) (p : P) (a b : Score) (st : SState) (ha : okN K a) (hb : okN K b) :
     Same st (quietSearch g le p a b st).2 ∧
     (Live (quietSearch g le p a b st).2 →
@@ -137,11 +137,11 @@ theorem quietSearch_tt {g : Game P} (hev : EvalOk g) (le : LeafEval) (K : Nat) (
     obtain ⟨q1, q2, q3, _⟩ := q hl
     exact ⟨q1, q2, q3⟩
 
-theorem sound_of_tt_eq {g : Game P} {ex : Explore} {le : LeafEval} {U : Nat → P → Prop} {t t' : TTState}
+theorem sound_of_tt_eq {g : Game P} {ex : P → Explore} {le : LeafEval P} {U : Nat → P → Prop} {t t' : TTState}
     (h : t' = t) (hs : SoundOn g ex le U t) : SoundOn g ex le U t' := by rw [h]; exact hs
 
 /-- Depth 0 after `abEnter`. -/
-theorem leafBody_tt {g : Game P} (hev : EvalOk g) (ex : Explore) (le : LeafEval) {rootPly : Int}
+theorem leafBody_tt {g : Game P} (hev : EvalOk g) (ex : P → Explore) (le : LeafEval P) {rootPly : Int}
     {R U : Nat → P → Prop} (hcl : Closed g ex R) (hRU : ∀ n q, R n q → U n q)
     (hrf : RootFreeOn g R rootPly) (hh : HashOKOn g ex le U) (K : Nat) (hK : leafGrade le ≤ K) (hK127 : K ≤ 127)
     (p : P) (hp : R 0 p) (a b : Score) (st : SState) (hs : SoundOn g ex le U st.tt) (ha : okN K a) (hb : okN K b)
@@ -196,7 +196,7 @@ theorem leafBody_tt {g : Game P} (hev : EvalOk g) (ex : Explore) (le : LeafEval)
       exact ⟨hmono, hstt, fun _ => ⟨q1, q2, q3, pathOK_nil _ _ _ _ _ _ _⟩⟩
 
 /-- Depth `d + 1` after `abEnter`, given the node contract one level down. -/
-theorem abBody_tt {g : Game P} (hev : EvalOk g) (ex : Explore) (le : LeafEval) {rootPly : Int}
+theorem abBody_tt {g : Game P} (hev : EvalOk g) (ex : P → Explore) (le : LeafEval P) {rootPly : Int}
     {R U : Nat → P → Prop} (hcl : Closed g ex R) (hRU : ∀ n q, R n q → U n q)
     (hrf : RootFreeOn g R rootPly) (hh : HashOKOn g ex le U) (K : Nat) (hK : leafGrade le ≤ K) (d : Nat)
     (hKd : K + d + 1 ≤ 127)
@@ -214,13 +214,13 @@ theorem abBody_tt {g : Game P} (hev : EvalOk g) (ex : Explore) (le : LeafEval) {
         (legalAny g p (g.moves p) = true → r.2.1 = [] → r.1 = a)) := by
   intro r hr
   simp only [abBody, poll_eq] at hr
-  have hperm := ABHeap.heapOrder_perm (g.moves p) (firstPrio best ex.prio)
+  have hperm := ABHeap.heapOrder_perm (g.moves p) (firstPrio best (ex p).prio)
   obtain ⟨hm, hi, hpost⟩ := abLoop_tt (g := g) (ex := ex) (p := p) IH (by omega) (b := b)
-    (heapOrder (g.moves p) (firstPrio best ex.prio))
+    (heapOrder (g.moves p) (firstPrio best (ex p).prio))
     (fun m hm c hpush hpk => hcl d p m c hp (hperm.mem_iff.1 hm) hpk hpush)
     a [] false { st with nodes := st.nodes + 1 } hs
     (fun _ => ⟨ha, hb⟩) _ rfl
-  generalize abLoop g ex (alphabeta g ex le rootPly d) p b (heapOrder (g.moves p) (firstPrio best ex.prio)) a []
+  generalize abLoop g ex (alphabeta g ex le rootPly d) p b (heapOrder (g.moves p) (firstPrio best (ex p).prio)) a []
     false { st with nodes := st.nodes + 1 } = res at hr hm hi hpost
   have hmono : Mono st (tick res.2.2.2.2) := Mono.trans (s2 := res.2.2.2.2) ⟨hm.1, hm.2⟩ (mono_tick _)
   have hstt : SoundOn g ex le U (tick res.2.2.2.2).tt := hi
@@ -316,7 +316,7 @@ theorem abEnter_root {g : Game P} {rootPly : Int} (depth : Nat) (p : P) (st : SS
   | some e => exact ⟨_, rfl⟩
 
 /-- Node contract of `alphabeta` with a sound table and cancellation, by induction on the depth. -/
-theorem alphabeta_recTT {g : Game P} (hev : EvalOk g) (ex : Explore) (le : LeafEval) {rootPly : Int}
+theorem alphabeta_recTT {g : Game P} (hev : EvalOk g) (ex : P → Explore) (le : LeafEval P) {rootPly : Int}
     {R U : Nat → P → Prop} (hcl : Closed g ex R) (hRU : ∀ n q, R n q → U n q)
     (hrf : RootFreeOn g R rootPly) (hh : HashOKOn g ex le U) (K : Nat) (hK : leafGrade le ≤ K) :
     ∀ d, K + d ≤ 127 →
